@@ -4,7 +4,7 @@
    hook-exported key sets of the two decoder tables). *)
 From V.lib Require Import Base.
 From V.c04 Require Import C04Model C04AsmModel C04ContainerProofs.
-From V.c03 Require Import C03Model C03Spec C03Registry C03Proofs C03CanonProofs C03LeafModel C03LeafProofs C03LeafBoxProofs C03LeafInstProofs C03StsdProofs C03VseProofs C03LeafTruncProofs C03LeafEncProofs C03DelegateProofs C03DelegateExtProofs C03FactsDefs C03Facts C03ClassProofs C03SencPassModel C03SencPassProofs C03EncHistModel C03EncHistProofs C03BodyFnProofs C03PfxModel C03PfxProofs C03PfxInstProofs.
+From V.c03 Require Import C03Model C03Spec C03Registry C03Proofs C03CanonProofs C03LeafModel C03LeafProofs C03LeafBoxProofs C03LeafInstProofs C03StsdProofs C03VseProofs C03LeafTruncProofs C03LeafEncProofs C03DelegateProofs C03DelegateExtProofs C03FactsDefs C03Facts C03ClassProofs C03SencPassModel C03SencPassProofs C03EncHistModel C03EncHistProofs C03BodyFnProofs C03PfxModel C03PfxProofs C03PfxInstProofs C03XEntryProofs.
 From V.c02 Require C02AggModel C02AggExamples C02AggFragProofs C02AggFileProofs C02AggSencModel C02AggSencProofs.
 Open Scope N_scope.
 
@@ -322,7 +322,8 @@ Print Assumptions C03_sprog_embeds.
    run) has a pair that is
      - delegating (shape checked by the extractor) with a position-relative SR decoder: C03_delegating_pair_agree applies; or
        delegating and named: DecodeVisualSampleEntry (C03_vse_pair_agree_canonical), DecodeTrep, DecodeWvtt (their pair theorems
-       below) / the explored list c03_delegating_nonrelative_explored = esds evte meta sgpd stpp;
+       below), DecodeEvte, DecodeStpp (C03_xentry_pairs_agree_canonical) / the explored list
+       c03_delegating_nonrelative_explored = esds meta sgpd;
      - a container twin (same text around DecodeContainerChildren / ...SR; KCont of C03_decode_agree_canonical), also when its SR
        decoder returns sr.AccError() instead of nil (edts sinf stbl: C03_twin_accerr_canonical);
      - moov / moof: the reader path reads the body and runs the text of the SR decoder on it, KContBody with the extracted flag;
@@ -330,7 +331,7 @@ Print Assumptions C03_sprog_embeds.
        + AccError into the same box: free, skip, cdat, styp; the opaque leaf std_r / std_sr of C03_std_canon_leaf) or a body-function
        pair (the same pure function of the body bytes on both paths: avcC hvcC av1C dac3 dec3 mdat; C03_bodyfn_pair_agree);
      - separately written and named: c03_separate_proved = trun senc stsd mfhd tfdt dref, audio sample entry (their pair theorems) or
-       c03_separate_explored = vttc.
+       c03_separate_explored = (none).
    A reader-path decoder that is rewritten by hand leaves its class and breaks this theorem until it gets a pair model. *)
 Theorem C03_all_pairs_classified :
   forall k, In k keys_decoders ->
@@ -566,6 +567,35 @@ Theorem C03_entry_pairs_agree_canonical :
 Proof. exact (conj wvtt_pair_agree_canonical ase_pair_agree_canonical). Qed.
 Print Assumptions C03_entry_pairs_agree_canonical.
 
+(* evte and stpp (both reader-path decoders: readBoxBody + private reader; SR decoders: a prefix, the test of the accumulated error, then
+   `for { rest := payloadLen - (sr.GetPos() - initPos); if rest <= 0 { break }; DecodeBoxSR(pos, sr) ... }`, return sr.AccError()).
+   The prefix is a LOCAL extended reader program (the hypothesis of C03_delegate_sound_ext; for stpp: two fixed reads, then up to three
+   zero-terminated strings whose maximal lengths are computed from payloadLen and the position relative to the entry).
+   evte: on EVERY payload of 8 bytes followed by canonical children both decoders accept with the same value;
+   stpp: on every payload fx ++ canonical children such that the prefix, run on the private reader over the payload, ends without
+   error exactly behind fx (the strings are terminated inside fx), both decoders accept with the same strings and children.
+   Buffers below 2^62 bytes. *)
+Theorem C03_xentry_pairs_agree_canonical :
+  (forall ld, leaf_ok ld -> forall nm fx kids,
+     length fx = 8%nat -> Forall (cwf ld) kids -> (lenN (fx ++ cencs kids) < 4294967288)%N ->
+     forall pre post cst cst2 fuel,
+     (zlen (pre ++ (fx ++ cencs kids) ++ post) < 4611686018427387904)%Z -> (zlen ((fx ++ cencs kids) ++ post) + 1 < Z.of_nat fuel)%Z ->
+     exists dri,
+       fst (evte_sr ld fuel (mkH nm (8 + lenN (fx ++ cencs kids)) 8) 0 (mkS (mkR (pre ++ (fx ++ cencs kids) ++ post) (zlen pre) false) cst)) = Ok (dri, map erase kids) /\
+       fst (evte_r ld fuel (mkH nm (8 + lenN (fx ++ cencs kids)) 8) 0 (mkI (pre ++ (fx ++ cencs kids) ++ post) (lenN pre) cst2)) = Ok (dri, map erase kids) /\
+       evte_size (dri, map erase kids) = (8 + lenN (fx ++ cencs kids))%N) /\
+  (forall ld, leaf_ok ld -> forall nm fx kids a,
+     Forall (cwf ld) kids -> (lenN (fx ++ cencs kids) < 4294967288)%N ->
+     run_xprog 0 (stpp_prog (Z.of_N (lenN (fx ++ cencs kids)))) (rnew (fx ++ cencs kids)) = Ok (a, mkR (fx ++ cencs kids) (zlen fx) false) ->
+     forall pre post cst cst2 fuel,
+     (zlen (pre ++ (fx ++ cencs kids) ++ post) < 4611686018427387904)%Z -> (zlen ((fx ++ cencs kids) ++ post) + 1 < Z.of_nat fuel)%Z ->
+     fst (stpp_sr ld fuel (mkH nm (8 + lenN (fx ++ cencs kids)) 8) 0 (mkS (mkR (pre ++ (fx ++ cencs kids) ++ post) (zlen pre) false) cst)) = Ok (a, map erase kids) /\
+     fst (stpp_r ld fuel (mkH nm (8 + lenN (fx ++ cencs kids)) 8) 0 (mkI (pre ++ (fx ++ cencs kids) ++ post) (lenN pre) cst2)) = Ok (a, map erase kids) /\
+     sum_sizes (map erase kids) (8 + lenN fx) = (8 + lenN (fx ++ cencs kids))%N) /\
+  (forall plen, local_xprog (evte_prog plen) /\ local_xprog (stpp_prog plen)).
+Proof. exact (conj evte_pair_agree_canonical (conj stpp_pair_agree_canonical (fun plen => conj (evte_prog_local plen) (stpp_prog_local plen)))). Qed.
+Print Assumptions C03_xentry_pairs_agree_canonical.
+
 (* the encoder pairs DrefBox, TrepBox, WvttBox, AudioSampleEntryBox: header, fixed bytes, every child - Encode = EncodeSW given children
    that agree, and the box is then an agreeing leaf of C03_box_encode_agree / C03_encode_agree *)
 Theorem C03_pfx_enc_agree : forall nm size fixed kids, agree_list kids = true ->
@@ -754,4 +784,15 @@ Example ex_dref_box : pfxbox_sr (be4 28 ++ name_dref ++ be4 0 ++ be4 1 ++ cenc (
 Proof. split; vm_compute; reflexivity. Qed.
 Example ex_ase_box : pfxbox_r (be4 45 ++ [109;112;52;97]%N ++ ase_fixed 1 2 16 48000 ++ cenc (CLeaf name_free [5]%N))
   = Ok (PAse (mkAse 1 2 16 48000, [Leaf name_free 9]), 45%N).
+Proof. vm_compute. reflexivity. Qed.
+
+(* an stpp payload: namespace "ns", schema location "a", auxiliary mime types "" - the hypothesis of the stpp theorem holds:
+   the prefix ends without error behind the 14 fixed bytes *)
+Example ex_stpp_fx : list N := [0;0;0;0;0;0; 0;1; 110;115;0; 97;0; 0]%N.
+Example ex_stpp_prefix :
+  run_xprog 0 (stpp_prog (Z.of_N (lenN (ex_stpp_fx ++ cencs [CLeaf name_free [5]%N])))) (rnew (ex_stpp_fx ++ cencs [CLeaf name_free [5]%N]))
+  = Ok (mkStpp 1 [110;115]%N [97]%N [] 0, mkR (ex_stpp_fx ++ cencs [CLeaf name_free [5]%N]) (zlen ex_stpp_fx) false).
+Proof. vm_compute. reflexivity. Qed.
+Example ex_stpp_box : pfxbox_sr (be4 31 ++ name_stpp ++ ex_stpp_fx ++ cenc (CLeaf name_free [5]%N))
+  = Ok (PStpp (mkStpp 1 [110;115]%N [97]%N [] 0, [Leaf name_free 9]), 31%Z, false).
 Proof. vm_compute. reflexivity. Qed.
